@@ -128,6 +128,7 @@ def run_standard(case):
         kw.update(checkpointing=True, checkpoint_on_iteration=True, checkpoint_interval=case.get("checkpoint_interval", 40))
     model = zoo.make(case["model"], **case.get("model_kwargs", {}))
     mon = StandardMonitors(model, stop_at_iteration=resume_at)
+    mon.abort_props = case.get("props")
     mon.continuous = case["model"] != "Tie2" or True
     res = dict(name=case.get("name"), segments=0, error=None)
     boundary = []
@@ -224,6 +225,7 @@ def run_ins(case):
         kw.update(checkpointing=True, checkpoint_on_iteration=True, checkpoint_interval=1)
     model = zoo.make(case["model"], **case.get("model_kwargs", {}))
     mon = INSMonitors(model, iteration_budget=case.get("iteration_budget", 200))
+    mon.abort_props = case.get("props")
     res = dict(name=case.get("name"), segments=0, error=None)
     boundary = []
     fs = None
